@@ -142,23 +142,6 @@ func coqStr(s string) (string, bool) {
 	return b.String(), true
 }
 
-func coqJV(h jose.Headers, name string) (string, bool) {
-	v, ok := h[name]
-	if !ok {
-		return "JAbsent", true
-	}
-
-	switch t := v.(type) {
-	case string:
-		s, ok := coqStr(t)
-		return "(JS " + s + ")", ok
-	case bool:
-		return "(JB " + hx.CoqBool(t) + ")", true
-	}
-
-	return "JOther", true
-}
-
 func stageOf(err error) string {
 	s := err.Error()
 	s = strings.TrimPrefix(s, "jwt verification failed: ")
@@ -551,22 +534,13 @@ func (w *world) coqCase(c *Case, o observed, hdr jose.Headers, hdrOK bool, paylo
 		det = "(Some " + str(c.Det) + ")"
 	}
 
-	hv := "None"
+	// the header bytes are decoded by the MODEL; only the re-marshalled bytes (what DefaultSigningInputVerifier
+	// verifies over) are handed over, and the model's own marshal is compared with them
+	canonS := `""`
 
 	if hdrOK {
-		var f [5]string
-
-		for i, n := range []string{"alg", "kid", "b64", "typ", "cty"} {
-			s, good := coqJV(hdr, n)
-			if !good {
-				ok = false
-			}
-
-			f[i] = s
-		}
-
 		canon, _ := gojson.Marshal(hdr)
-		hv = fmt.Sprintf("(Some {| h_alg := %s; h_kid := %s; h_b64 := %s; h_typ := %s; h_cty := %s; h_canon := chars %s |})", f[0], f[1], f[2], f[3], f[4], str(string(canon)))
+		canonS = `"` + b64.EncodeToString(canon) + `"`
 	}
 
 	// the document the kid's DID resolves to, as the harness built it (NOT what the resolver answered)
@@ -616,8 +590,8 @@ func (w *world) coqCase(c *Case, o observed, hdr jose.Headers, hdrOK bool, paylo
 		return ""
 	}
 
-	return fmt.Sprintf("{| c_entry := %s; c_cfg := %s; c_det := %s; c_tok := %s; c_hdr := %s; c_docs := %s; c_sig0 := %s; c_sigv0 := %s; c_payobj := %s; c_obs := %s |}",
-		entry, cfg, det, tokS, hv, keys, sigS, sigv, hx.CoqBool(perr == nil && payload != nil), obs)
+	return fmt.Sprintf("{| c_entry := %s; c_cfg := %s; c_det := %s; c_tok := %s; c_canon := %s; c_docs := %s; c_sig0 := %s; c_sigv0 := %s; c_payobj := %s; c_obs := %s |}",
+		entry, cfg, det, tokS, canonS, keys, sigS, sigv, hx.CoqBool(perr == nil && payload != nil), obs)
 }
 
 // ---------- token construction ----------
